@@ -63,6 +63,15 @@ def _wire(e: Obj):
     a["iterchildren"] = lambda *x: [c for c in a["__children__"] if is_elem(c)]
     a["getroottree"] = lambda: make_tree(root_of(e))
     a["__iter__"] = a["__children__"]       # iterating an element yields every child node (comments too)
+
+    def getitem(k):
+        try:
+            return a["__children__"][k]         # element[i] / element[i:j]: child nodes by position (comments too)
+        except IndexError:
+            raise Raised(ExcVal("IndexError", ("list index out of range",)))
+        except TypeError:
+            raise Raised(ExcVal("TypeError", ("element indices must be integers or slices",)))
+    a["__getitem__"] = getitem
     a["__truth__"] = True
 
 
